@@ -26,6 +26,16 @@ unit(Unit("numeric", [fn_round_pow2, fn_ipow], "contracts/numeric.h", "lemmas/c1
 # ---------------------------------------------------------------- morton
 MORTON = CORE + "backend/transformer/morton.hpp"
 COMMON_SUBST = [
+    ("typename contravariant_input_t::vector_t::value_type", "IN_SCALAR_T", 0),
+    ("typename _input_vector_d::type", "IN_SCALAR_T", 0),
+    ("typename _input_vector_t::type", "IN_SCALAR_T", 0),
+    ("typename backend_t::contravariant_input_t::scalar_t", "B_IN_SCALAR_T", 0),
+    ("typename backend_t::contravariant_input_t::vector_t", "B_IN_VEC_T", 0),
+    ("backend_t::contravariant_input_t::dimensions", "DIMS_B_IN", 0),
+    ("backend_t::covariant_output_t::dimensions", "DIMS_OUT", 0),
+    ("typename covariant_input_t::scalar_t", "OUT_SCALAR_T", 0),
+    ("covariant_input_t::dimensions", "DIMS_OUT", 0),
+    ("_input_vector_d::size", "DIMS_IN", 0),
     ("typename contravariant_input_t::vector_t", "IN_VEC_T", 0),
     ("typename contravariant_input_t::scalar_t", "IN_SCALAR_T", 0),
     ("typename contravariant_output_t::scalar_t", "B_IN_SCALAR_T", 0),
@@ -47,20 +57,17 @@ def make_morton(name, consts, N="2"):
                   ret="size_t", ptypes=["IN_VEC_T", None], params_hint=r"index_sequence",
                   vec_types=["IN_VEC_T"],
                   fold=("Idxs", list(range(n))),
-                  subst_post=[(r"get_mask\s*<\s*(\d+)\s*>\s*::\s*value", r"VERIF_MORTON_MASK_N%d_I\1" % n, n, True)],
-                  must={"R8_fold": 1}))
+                  subst_post=[(r"get_mask\s*<\s*(\d+)\s*>\s*::\s*value", r"VERIF_CAT(VERIF_MORTON_MASK_N%d_I\1_, IN_SCALAR_T)" % n, 0, True)]))
     fns.append(Fn("morton_calculate_index", MORTON, ["struct morton"], "calculate_index",
                   ret="size_t", ptypes=["IN_VEC_T"], vec_types=["IN_VEC_T"],
                   subst=COMMON_SUBST + [
-                      (r"(?s)morton_pdep_mask\s*<.*?>\s*::\s*compute", "morton_pdep_compute", 1, True),
-                      ("use_bmi2", "VERIF_USE_BMI2", 1),
-                  ],
-                  must={"R6_if_constexpr": 1, "R1_cast": 1}))
+                      (r"(?s)morton_pdep_mask\s*<.*?>\s*::\s*compute", "morton_pdep_compute", 0, True),
+                      ("use_bmi2", "VERIF_USE_BMI2", 0),
+                  ]))
     fns.append(Fn("morton_at", MORTON, ["struct morton", "struct non_owning_data_t"], "at",
                   ret="OUT_VEC_PTR_T", ptypes=["IN_VEC_T"], vec_types=["IN_VEC_T"],
                   method="const MORTON_SELF_T *self", members=["m_sizes"], arrays=["m_sizes"],
-                  subst=COMMON_SUBST + [("m_storage.at(", "backend_at(", 0), ("calculate_index(", "morton_calculate_index(", 0)],
-                  must={"R11_member": 1}))
+                  subst=COMMON_SUBST + [("m_storage.at(", "backend_at(", 0), ("calculate_index(", "morton_calculate_index(", 0)]))
     expr_subst = [("utility::ipow", "ipow", 1), ("utility::round_pow2", "round_pow2", 1), MAXEL] + COMMON_SUBST
     fns.append(Fn("morton_alloc_size_copy", MORTON, ["struct morton"], "make_morton_copy", kind="expr",
                   expr_rx=r"utility::ipow\s*\(", ret="size_t", ptypes=["ND_SIZE_T"], pnames=["sizes"],
@@ -85,8 +92,7 @@ def make_strided(name, consts):
     fns.append(Fn("strided_at", STRIDED, ["struct strided", "struct non_owning_data_t"], "at",
                   ret="OUT_VEC_PTR_T", ptypes=["IN_VEC_T"], vec_types=["IN_VEC_T"],
                   method="const STRIDED_SELF_T *self", members=["m_sizes"], arrays=["m_sizes"],
-                  subst=COMMON_SUBST + [(r"m_storage\s*\.\s*at\s*\(\s*\{\s*(\w+)\s*\}\s*\)", r"backend_at(\1)", 1, True)],
-                  must={"R11_member": 1, "R1_cast": 1}))
+                  subst=COMMON_SUBST + [(r"m_storage\s*\.\s*at\s*\(\s*\{\s*(\w+)\s*\}\s*\)", r"backend_at(\1)", 1, True)]))
     fns.append(Fn("strided_alloc_size_copy", STRIDED, ["struct strided"], "make_strided_copy", kind="expr",
                   expr_rx=r"std::accumulate\s*\(", ret="size_t", ptypes=["ND_SIZE_T"], pnames=["sizes"], subst=[ACCUM]))
     fns.append(Fn("strided_alloc_size_ctor", STRIDED, ["struct strided", "struct owning_data_t"], "owning_data_t", kind="expr",
@@ -117,8 +123,7 @@ def make_hilbert(name, consts):
     fns.append(Fn("hilbert_at", HILBERT, ["struct hilbert", "struct non_owning_data_t"], "at",
                   ret="OUT_VEC_PTR_T", ptypes=["IN_VEC_T"], vec_types=["IN_VEC_T"],
                   method="const HILBERT_SELF_T *self", members=["m_sizes"], arrays=["m_sizes"],
-                  subst=HILBERT_SUBST + [("m_storage.at(", "backend_at(", 0), ("calculate_index(", "hilbert_calculate_index(", 0)],
-                  must={"R11_member": 1}))
+                  subst=HILBERT_SUBST + [("m_storage.at(", "backend_at(", 0), ("calculate_index(", "hilbert_calculate_index(", 0)]))
     expr_subst = [("utility::ipow", "ipow", 1), ("utility::round_pow2", "round_pow2", 1), MAXEL] + COMMON_SUBST
     fns.append(Fn("hilbert_alloc_size_copy", HILBERT, ["struct hilbert"], "make_hilbert_copy", kind="expr",
                   expr_rx=r"utility::ipow\s*\(", ret="size_t", ptypes=["ND_SIZE_T"], pnames=["sizes"], subst=expr_subst))
@@ -137,8 +142,7 @@ ARRAYB = CORE + "backend/primitive/array.hpp"
 def fn_array_at():
     return Fn("array_at", ARRAYB, ["struct array", "struct non_owning_data_t"], "at",
               ret="OUT_VEC_T *", ptypes=["size_t"], method="const ARRAY_NO_T *self",
-              members=["m_size", "m_ptr"], byref_return=True,
-              must={"R11_member": 2, "R20_byref_return": 1})
+              members=["m_size", "m_ptr"], byref_return=True)
 
 
 def make_array_at(name, consts):
@@ -162,8 +166,7 @@ def make_clamp(name, consts, N="2"):
                   ret="IN_VEC_T", ptypes=["IN_VEC_T", None], vec_types=["IN_VEC_T"],
                   method="const CLAMP_SELF_T *self", members=["m_min", "m_max"], arrays=["m_min", "m_max"],
                   subst=LAYER_SUBST + [("std::clamp(", "verif_std_clamp(", 0)],
-                  pack=("Is", list(range(n)), n, "IN_VEC_T"),
-                  must={"R8_pack": 1, "R11_member": 2}))
+                  pack=("Is", list(range(n)), n, "IN_VEC_T")))
     fns.append(Fn("clamp_at", CLAMP, ["struct clamp", "struct non_owning_data_t"], "at",
                   ret="OUT_VEC_T", ptypes=["IN_VEC_T"], vec_types=["IN_VEC_T"],
                   method="const CLAMP_SELF_T *self",
@@ -191,7 +194,7 @@ def make_nn(name, consts):
     fns = [Fn("nn_at", NN, ["struct nearest_neighbour", "struct non_owning_data_t"], "at",
               ret="OUT_VEC_T", ptypes=["IN_VEC_T"], vec_types=["IN_VEC_T", "B_IN_VEC_T"],
               method="const NN_SELF_T *self",
-              subst=LAYER_SUBST + [("m_backend.at(", "backend_at(", 0), ("std::lrint(", "VERIF_LRINT(", 0), ("std::round(", "VERIF_ROUND(", 0)])]
+              subst=LAYER_SUBST + [("m_backend.at(", "backend_at(", 0)])]
     return Unit(name, fns, "contracts/nn.h", "lemmas/nn.c", stubs=["stubs/backend.h"])
 
 
@@ -205,6 +208,8 @@ IO_SUBST = [
     (r"\bfs\s*\.\s*fail\s*\(\s*\)", "istream_fail(fs)", 0, True),
     (r"\bfs\s*\.\s*bad\s*\(\s*\)", "istream_bad(fs)", 0, True),
     (r"!\s*fs\b(?!\s*[.(\-])", "istream_fail(fs)", 0, True),
+    (r"\bfs\s*\.\s*peek\s*\(\s*\)", "istream_peek(fs)", 0, True),
+    (r"std::(?:istream|ios|char_traits\s*<\s*char\s*>)::(?:traits_type::)?eof\s*\(\s*\)", "(-1)", 0, True),
     (r"\bMAGIC_HEADER\b", "verif_magic_header_obj", 0, True),
     (r"\bMAGIC_FOOTER\b", "verif_magic_footer_obj", 0, True),
     (r"\b(?:utility::)?read_binary\s*<\s*uint32_t\s*>\s*\(", "read_binary_u32(", 0, True),
@@ -222,20 +227,19 @@ MAY_THROW = ["read_binary_u32", "read_binary_u64", "read_binary_f32", "read_bina
 
 def fn_read_binary(key, ctype):
     return Fn(key, BINIO, ["namespace covfie::utility"], "read_binary", ret=ctype, ptypes=["VERIF_ISTREAM *"],
-              subst=[("T", ctype, 1)] + IO_SUBST,
+              subst=[("T", ctype, 0)] + IO_SUBST,
               drop=[r"(?s)static_assert\s*\(.*?\)\s*;"],
-              throws=True, dummy_ret="rv", must={"R1_cast": 1})
+              throws=True, dummy_ret="rv")
 
 
 def binio_fns():
     fns = [fn_read_binary("read_binary_u32", "uint32_t"), fn_read_binary("read_binary_u64", "uint64_t"),
            fn_read_binary("read_binary_f32", "float"), fn_read_binary("read_binary_f64", "double")]
     for nm, st in (("write_io_header", "VERIF_OSTREAM *"), ("write_io_footer", "VERIF_OSTREAM *")):
-        fns.append(Fn(nm, BINIO, ["namespace covfie::utility"], nm, ret=st, ptypes=[st, "uint32_t"], subst=IO_SUBST,
-                      must={"R1_cast": 2}))
+        fns.append(Fn(nm, BINIO, ["namespace covfie::utility"], nm, ret=st, ptypes=[st, "uint32_t"], subst=IO_SUBST))
     for nm in ("read_io_header", "read_io_footer"):
         fns.append(Fn(nm, BINIO, ["namespace covfie::utility"], nm, ret="VERIF_ISTREAM *", ptypes=["VERIF_ISTREAM *", "uint32_t"],
-                      subst=IO_SUBST, throws=True, propagate=MAY_THROW, dummy_ret="fs", must={"R9_throw": 2, "R14_propagate": 2}))
+                      subst=IO_SUBST, throws=True, propagate=MAY_THROW, dummy_ret="fs"))
     return fns
 
 
@@ -245,7 +249,7 @@ def make_binio(name, consts):
 
 # ---------------------------------------------------------------- array backend serialisation
 ARRAY_IO_SUBST = IO_SUBST + [
-    (r"\bIO_MAGIC_HEADER\b", "verif_tag_array_obj", 1, True),
+    (r"\bIO_MAGIC_HEADER\b", "verif_tag_array_obj", 0, True),
     (r"(?s)(?:utility::)?read_binary\s*<\s*std::decay_t\s*<\s*decltype\s*\(\s*m_size\s*\)\s*>\s*>\s*\(", "read_binary_u64(", 0, True),
     (r"(?s)(?:utility::)?read_binary\s*<\s*__typeof__\s*\(\s*m_size\s*\)\s*>\s*\(", "read_binary_u64(", 0, True),
     (r"\bauto\s+size\b", "uint64_t size", 0, True),
@@ -264,11 +268,10 @@ def array_io_fns():
     fns = binio_fns()
     fns.append(Fn("array_read_binary", ARRAYB, ["struct array", "struct owning_data_t"], "read_binary",
                   ret="ARRAY_OWN_T", ptypes=["VERIF_ISTREAM *"], subst=ARRAY_IO_SUBST, arrays2=["ptr"],
-                  throws=True, propagate=MAY_THROW, dummy_ret="((ARRAY_OWN_T){0, 0})",
-                  must={"R9_throw": 2, "R14_propagate": 4}))
+                  throws=True, propagate=MAY_THROW, dummy_ret="((ARRAY_OWN_T){0, 0})"))
     fns.append(Fn("array_write_binary", ARRAYB, ["struct array", "struct owning_data_t"], "write_binary",
                   ret="void", ptypes=["VERIF_OSTREAM *", "const ARRAY_OWN_T *"], subst=ARRAY_IO_SUBST,
-                  refparams=["o"], arrays2=["m_ptr"], throws=True, dummy_ret="", must={"R6_if_constexpr": 2}))
+                  refparams=["o"], arrays2=["m_ptr"], throws=True, dummy_ret=""))
     return fns
 
 
@@ -281,6 +284,9 @@ OWN_SUBST = [
     (r"(?s)\bm_ptr\s*=\s*std::make_unique\s*<\s*vector_t\s*\[\s*\]\s*>\s*\(([^;]*)\)\s*;", r"verif_unique_ptr_move_assign(&m_ptr, verif_make_unique_array(\1));", 0, True),
     (r"(?s)std::make_unique\s*<\s*vector_t\s*\[\s*\]\s*>\s*\(", "verif_make_unique_array(", 0, True),
     (r"\bm_ptr\s*\.\s*get\s*\(\s*\)", "m_ptr", 0, True),
+    (r"\bm_ptr\s*\.\s*release\s*\(\s*\)", "verif_unique_ptr_release(&m_ptr)", 0, True),
+    (r"\bm_ptr\s*\.\s*reset\s*\(\s*\)", "verif_unique_ptr_move_assign(&m_ptr, 0)", 0, True),
+    (r"(?s)\bm_ptr\s*\.\s*reset\s*\(([^;]*)\)\s*;", r"verif_unique_ptr_move_assign(&m_ptr, \1);", 0, True),
     (r"\bvector_t\b", "OUT_VEC_T", 0, True),
 ]
 
@@ -293,8 +299,7 @@ def make_array_own(name, consts):
                   subst_post=[(r"\breturn\s*\*\s*this\s*;", "return self;", 0, True)]))
     fns.append(Fn("array_copy_ctor", ARRAYB, ["struct array", "struct owning_data_t"], "owning_data_t",
                   params_hint=r"^\s*const\s+owning_data_t\s*&", ret="void", ptypes=["const ARRAY_OWN_T *"], ctor=True,
-                  method="ARRAY_OWN_T *self", members=["m_size", "m_ptr"], refparams=["o"], subst=OWN_SUBST,
-                  must={"R21_ctor_init": 2}))
+                  method="ARRAY_OWN_T *self", members=["m_size", "m_ptr"], refparams=["o"], subst=OWN_SUBST))
     return Unit(name, fns, "contracts/array_own.h", "lemmas/array_own.c")
 
 
@@ -312,7 +317,7 @@ def make_shuffle(name, consts, perm="0"):
     n = len(pm)
     fns = [Fn("shuffle_shuffle", SHUFFLE, ["struct shuffle", "struct non_owning_data_t"], "shuffle",
               ret="IN_VEC_T", ptypes=["IN_VEC_T", None], vec_types=["IN_VEC_T"], method="const EMPTY_SELF_T *self",
-              subst=LAYER_SUBST, pack=("Is", pm, n, "IN_VEC_T"), subst_post=[ARR_AT], must={"R8_pack": 1}),
+              subst=LAYER_SUBST, pack=("Is", pm, n, "IN_VEC_T"), subst_post=[ARR_AT]),
            Fn("shuffle_at", SHUFFLE, ["struct shuffle", "struct non_owning_data_t"], "at",
               ret="OUT_VEC_T", ptypes=["IN_VEC_T"], vec_types=["IN_VEC_T"], method="const EMPTY_SELF_T *self",
               subst=LAYER_SUBST + [(r",\s*indices\s*\{\s*\}", "", 0, True), ("m_backend.at(", "backend_at(", 0), ("shuffle(", "shuffle_shuffle(self, ", 0)])]
@@ -339,8 +344,8 @@ def make_cast(name, consts, N="1", M="1"):
     k = cast_index_count(n, m)
     fns = [Fn("cast_at_helper", CAST, ["struct covariant_cast", "struct non_owning_data_t"], "at_helper",
               ret="CAST_VEC_T", ptypes=["IN_VEC_T", None], vec_types=["IN_VEC_T"], method="const EMPTY_SELF_T *self",
-              subst=LAYER_SUBST + [("target_type", "CAST_T", 1), ("m_backend.at(", "backend_at(", 0)],
-              call_index=["backend_at"], pack=("Is", list(range(k)), m, "CAST_VEC_T"), must={"R8_pack": 1}),
+              subst=LAYER_SUBST + [("target_type", "CAST_T", 0), ("m_backend.at(", "backend_at(", 0)],
+              call_index=["backend_at"], pack=("Is", list(range(k)), m, "CAST_VEC_T")),
            Fn("cast_at", CAST, ["struct covariant_cast", "struct non_owning_data_t"], "at",
               ret="CAST_VEC_T", ptypes=["IN_VEC_T"], vec_types=["IN_VEC_T"], method="const EMPTY_SELF_T *self",
               subst=LAYER_SUBST + [MKSEQ, ("at_helper(", "cast_at_helper(self, ", 0)])]
@@ -364,7 +369,7 @@ def make_constant(name, consts):
 def make_identity(name, consts):
     fns = [Fn("identity_at", IDENTITY, ["struct identity", "struct non_owning_data_t"], "at",
               ret="IDENT_VEC_T", ptypes=["IN_VEC_T"], vec_types=["IN_VEC_T", "IDENT_VEC_T"], method="const EMPTY_SELF_T *self",
-              subst=[("typename covariant_output_t::vector_t", "IDENT_VEC_T", 1)] + LAYER_SUBST)]
+              subst=[("typename covariant_output_t::vector_t", "IDENT_VEC_T", 0)] + LAYER_SUBST)]
     return Unit(name, fns, "contracts/simple_layers.h", "lemmas/simple_layers.c", stubs=["stubs/backend.h"])
 
 
@@ -376,7 +381,6 @@ LINEAR_SUBST = [
     ("input_scalar_type", "IN_SCALAR_T", 0),
 ] + LAYER_SUBST + [
     ("contravariant_output_t::scalar_t", "B_IN_SCALAR_T", 0),
-    ("std::trunc(", "VERIF_TRUNC(", 0),
     ("m_backend.at(", "backend_at(", 0),
     ("_backend_index_helper(", "linear_index_helper(self, ", 0),
 ]
@@ -386,12 +390,36 @@ def make_linear(name, consts, N="2"):
     n = int(N)
     fns = [Fn("linear_index_helper", LINEAR, ["struct linear", "struct non_owning_data_t"], "_backend_index_helper",
               ret="B_IN_VEC_T", ptypes=["B_IN_VEC_T", "size_t", None], vec_types=["B_IN_VEC_T"], method="const LINEAR_SELF_T *self",
-              subst=LINEAR_SUBST, pack=("Is", list(range(n)), n, "B_IN_VEC_T"), must={"R8_pack": 1}),
+              subst=LINEAR_SUBST, pack=("Is", list(range(n)), n, "B_IN_VEC_T")),
            Fn("linear_at", LINEAR, ["struct linear", "struct non_owning_data_t"], "at",
               ret="OUT_VEC_T", ptypes=["IN_VEC_T"], vec_types=["IN_VEC_T", "B_IN_VEC_T", "OUT_VEC_T"], method="const LINEAR_SELF_T *self",
-              subst=LINEAR_SUBST + [MKSEQ], arrays2=["pc"], brace_call=("backend_at", n, "B_IN_VEC_T"),
-              must={"R6_if_constexpr": 3})]
+              subst=LINEAR_SUBST + [MKSEQ], arrays2=["pc"], brace_call=("backend_at", n, "B_IN_VEC_T"))]
     return Unit(name, fns, "contracts/linear.h", "lemmas/linear.c")
+
+
+# ---------------------------------------------------------------- layer framing (nd_size configuration)
+LAYER_IO_SUBST = IO_SUBST + [
+    (r"\bIO_MAGIC_HEADER\b", "verif_layer_tag_obj", 0, True),
+    (r"(?s)(?:utility::)?read_binary\s*<\s*__typeof__\s*\(\s*m_sizes\s*\)\s*>\s*\(", "read_binary_ndsize(", 0, True),
+    (r"\bauto\s+sizes\b", "ND_SIZE_T sizes", 0, True),
+    (r"(?s)\bauto\s+be\s*=\s*(?:backend_t::owning_data_t|__typeof__\s*\(\s*m_storage\s*\))\s*::\s*read_binary\s*\(", "B_OWN_T be = backend_read_binary(", 0, True),
+    (r"(?s)(?:backend_t::owning_data_t|__typeof__\s*\(\s*m_storage\s*\))\s*::\s*write_binary\s*\(\s*fs\s*,\s*o\s*\.\s*m_storage\s*\)", "backend_write_binary(fs, &o.m_storage)", 0, True),
+    (r"(?s)owning_data_t\s*\(\s*sizes\s*,\s*std::move\s*\(\s*be\s*\)\s*\)", "verif_layer_own_ctor(sizes, be)", 0, True),
+    (r"__typeof__\s*\(\s*m_sizes\s*\)", "ND_SIZE_T", 0, True),
+]
+LAYER_FILES = {"1": (STRIDED, "struct strided"), "2": (MORTON, "struct morton"), "3": (HILBERT, "struct hilbert")}
+
+
+def make_layer_io(name, consts, L="1"):
+    f, sc = LAYER_FILES[L]
+    fns = binio_fns()
+    fns.append(Fn("read_binary_ndsize", BINIO, ["namespace covfie::utility"], "read_binary", ret="ND_SIZE_T", ptypes=["VERIF_ISTREAM *"],
+                  subst=[("T", "ND_SIZE_T", 0)] + IO_SUBST, drop=[r"(?s)static_assert\s*\(.*?\)\s*;"], throws=True, dummy_ret="rv"))
+    fns.append(Fn("layer_read_binary", f, [sc, "struct owning_data_t"], "read_binary", ret="LAYER_OWN_T", ptypes=["VERIF_ISTREAM *"],
+                  subst=LAYER_IO_SUBST, throws=True, propagate=MAY_THROW, dummy_ret="((LAYER_OWN_T){0})"))
+    fns.append(Fn("layer_write_binary", f, [sc, "struct owning_data_t"], "write_binary", ret="void", ptypes=["VERIF_OSTREAM *", "const LAYER_OWN_T *"],
+                  subst=LAYER_IO_SUBST, refparams=["o"]))
+    return Unit(name, fns, "contracts/layer_io.h", "lemmas/layer_io.c")
 
 
 def get_unit(name, consts=None):
@@ -420,3 +448,4 @@ FACTORIES["deref"] = make_deref
 FACTORIES["constant"] = make_constant
 FACTORIES["identity"] = make_identity
 FACTORIES["linear"] = make_linear
+FACTORIES["layer_io"] = make_layer_io
